@@ -27,6 +27,8 @@ impl Clone for LayoutMetadata { #[verifier::external_body] fn clone(&self) -> (r
 impl Clone for MetadataWrapper { #[verifier::external_body] fn clone(&self) -> (r: Self) ensures r == *self { unimplemented!() } }
 impl Clone for Metablock { #[verifier::external_body] fn clone(&self) -> (r: Self) ensures r == *self { unimplemented!() } }
 impl Clone for PublicKey { #[verifier::external_body] fn clone(&self) -> (r: Self) ensures r == *self { unimplemented!() } }
+// `Command` derives PartialEq in the repo (comparison of two Vec<String>; used for warnings only, no spec needed)
+impl PartialEq for Command { #[verifier::external_body] fn eq(&self, other: &Self) -> bool { unimplemented!() } }
 // Debug impls exist in the repo (derived); formatting never panics (prelude/axioms.rs)
 impl std::fmt::Debug for Command { #[verifier::external_body] fn fmt(&self, f: &mut std::fmt::Formatter) -> std::fmt::Result { unimplemented!() } }
 // assumed: `==` / `!=` on artifact maps (BTreeMap<VirtualTargetPath, HashMap<HashAlgorithm, HashValue>>) is structural equality
